@@ -226,6 +226,11 @@ def pool_recipe(draw):
         if draw(st.booleans()):
             items.append(["pop", ["bytes", tp.method_selector(sig.encode()).hex()]])
             nspell += 1
+        if draw(st.booleans()):
+            # the signature TEXT as an ordinary string constant next to the method literal (same spelling, other value)
+            for _ in range(draw(st.integers(1, 2))):
+                items.append(["pop", ["str", sig]])
+            kinds.add("bytes")
     for _ in range(draw(st.integers(0, 2))):
         name = "TMPL_" + draw(st.sampled_from(["A", "B", "X1"]))
         k = draw(st.sampled_from(["tmpli", "tmplb", "tmpla"]))
